@@ -392,6 +392,51 @@ func gen808(c *Ctx, pa string, budget time.Duration) {
 			}
 		}
 	}
+	// (b2) two packets of one message id whose declared totals differ: packet 1 of N creates an N-slot table; then
+	// packet k of M with M > N and N < k <= M (beyond the table, inside the new total), and M < N with k > M
+	// (inside the table, beyond the new total); totals 1, 2, 3, 255, 65535
+	type step2 struct{ n, k, m uint16 }
+	var two []step2
+	totals := []uint16{1, 2, 3, 255, 65535}
+	for _, n := range totals {
+		for _, m := range totals {
+			switch {
+			case m > n:
+				two = append(two, step2{n, n + 1, m}, step2{n, m, m})
+			case m < n:
+				two = append(two, step2{n, m + 1, m}, step2{n, n, m})
+			}
+		}
+	}
+	ids2 := []uint16{0x0200, 0x0801, 0x0704, 0x1210}
+	if !c.Quick() {
+		ids2 = ids808
+	}
+	for ti, t := range two {
+		for ii, id := range ids2 {
+			if !left() {
+				break
+			}
+			v := (ti+ii)%2 == 0
+			oneRead := (ti+ii)%3 == 0
+			s := newScript("sub-package-two-totals")
+			k := s.hostile()
+			bcd := nextPhone(v)
+			s.O(k)
+			f1 := FrameSpec{ID: id, Ver2019: v, Phone: bcd, Serial: 1, Frag: true, Sum: t.n, No: 1, Body: []byte{1, 2}}.Wire()
+			f2 := FrameSpec{ID: id, Ver2019: v, Phone: bcd, Serial: 2, Frag: true, Sum: t.m, No: t.k, Body: []byte{3}}.Wire()
+			f3 := FrameSpec{ID: id, Ver2019: v, Phone: bcd, Serial: 3, Frag: true, Sum: t.m, No: t.m, Body: []byte{4}}.Wire()
+			if oneRead {
+				s.D(k, append(append(append([]byte{}, f1...), f2...), f3...))
+			} else {
+				s.D(k, f1)
+				s.D(k, f2)
+				s.D(k, f3)
+			}
+			s.probe(k, v, bcd)
+			finish(s)
+		}
+	}
 	// (c) close / reset at every point of a valid conversation, and before any byte
 	conv := func(v bool, bcd []byte) []byte {
 		var b []byte
@@ -776,6 +821,49 @@ func genAtt(c *Ctx, budget time.Duration) {
 				default:
 					s.R(k)
 				}
+				finish(d, s)
+			}
+		}
+		// chunk headers cut so that the first read fills a fresh buffer exactly (append rounds the capacity to Go's
+		// allocation size classes: with 8, 16, ... 128 bytes len == cap, and a slice beyond the data panics instead of
+		// reading spare capacity); HLJ names chosen so that the cut falls inside each of the last bytes of the header
+		for _, sz := range []int{8, 16, 32, 48, 64, 80, 96, 112, 128} {
+			nls := []int{5}
+			if d == AttHLJ {
+				nls = nil
+				for nl := sz - 12; nl <= sz-9; nl++ { // header 13+nl = sz+1 .. sz+4
+					if nl >= 1 && nl <= 255 {
+						nls = append(nls, nl)
+					}
+				}
+			}
+			for _, nl := range nls {
+				if !left() {
+					return
+				}
+				nm := bytes.Repeat([]byte{'h'}, nl)
+				data := bytes.Repeat([]byte{9}, 150)
+				ch := Chunk(d, nm, 0, data)
+				if sz >= len(ch) {
+					continue
+				}
+				// A: the chunk is the first thing on the connection (unknown file: fatal after the header is whole)
+				s := newScript(d, "header-at-capacity")
+				k := s.hostile()
+				s.O(k)
+				s.D(k, ch[:sz])
+				s.D(k, ch[sz:])
+				s.F(k)
+				finish(d, s)
+				// B: announced file, the same cut, then the completion report
+				s = newScript(d, "header-at-capacity")
+				k = s.hostile()
+				s.O(k)
+				s.D(k, Frame808(0x1210, v, bcd, 1, Body1210(d, pre, 0, -1, []AttItem{{Name: nm, Size: uint32(len(data))}})))
+				s.D(k, ch[:sz])
+				s.D(k, ch[sz:])
+				s.D(k, Frame808(0x1212, v, bcd, 2, Body1211(nm, 0, uint32(len(data)))))
+				s.probe(k, v, bcd)
 				finish(d, s)
 			}
 		}
